@@ -232,13 +232,20 @@ func (db *DB) loadSchema(of Object) (s *Schema, err error) {
 
 func (db *DB) startAsyncWritesRoutine(s *Schema) {
 	step := time.Millisecond * 100
-	if s.asyncWritesEnabled() && !s.AsyncWrites.routineStarted {
-		s.AsyncWrites.routineStarted = true
+	if s.asyncWritesEnabled() && !s.routineStarted {
+		s.routineStarted = true
 		go func() {
 			for db.ctx.Err() == nil {
 				for slept := time.Duration(0); ; slept += step {
-					n := db.safeCountPendingAsyncW(s.object)
-					if n >= s.AsyncWrites.Threshold || slept >= s.AsyncWrites.Timeout {
+					// settings may be changed (or async writes disabled) by Create
+					n, async, enabled := db.safeAsyncWState(s)
+					if !enabled {
+						db.Lock()
+						s.routineStarted = false
+						db.Unlock()
+						return
+					}
+					if n >= async.Threshold || slept >= async.Timeout {
 						// enter critical section
 						db.Lock()
 						// checking db.ctx not to race with db.Close function
@@ -259,10 +266,15 @@ func (db *DB) startAsyncWritesRoutine(s *Schema) {
 	}
 }
 
-func (db *DB) safeCountPendingAsyncW(of Object) (n int) {
+// safeAsyncWState returns the number of pending async writes
+// along with the current async writes settings of the schema
+func (db *DB) safeAsyncWState(s *Schema) (n int, async Async, enabled bool) {
 	db.RLock()
 	defer db.RUnlock()
-	return db.asyncw.count(of)
+	if enabled = s.asyncWritesEnabled(); enabled {
+		async = *s.AsyncWrites
+	}
+	return db.asyncw.count(s.object), async, enabled
 }
 
 func (db *DB) schema(of Object) (s *Schema, err error) {
@@ -545,11 +557,26 @@ func (db *DB) Create(o Object, s Schema) (err error) {
 	case err == nil:
 		s.initialize(db, o)
 
+		if err = es.isCompatibleWith(&s); err != nil {
+			return
+		}
+
+		// objects waiting to be written must reach the disk before async
+		// writes settings change, they would be lost if it gets disabled
+		if es.asyncWritesEnabled() {
+			if err = db.flushAll(o); err != nil {
+				return
+			}
+		}
+
 		// the schema is existing and we don't need to build a new one
 		// update existing schema with changes
 		if err = es.update(&s); err != nil {
 			return
 		}
+
+		// async writes may just have been enabled
+		db.startAsyncWritesRoutine(es)
 
 		return db.saveSchema(o, es, true)
 
